@@ -8,6 +8,7 @@ package main
 
 import (
 	"context"
+	"database/sql"
 	"crypto/sha256"
 	"encoding/hex"
 	"encoding/json"
@@ -187,6 +188,8 @@ type scanResult struct {
 	Panics      []string       `json:"panics_(C02_scope)"`
 	Bad         []any          `json:"bad"`
 	Partial     string         `json:"label"`
+	Matrix      []matrixRun    `json:"db_and_realpath_matrix"`
+	NotExercised []string      `json:"valid_fixture_unavailable_(emptied_in_this_sandbox)"`
 	Known       map[string]any `json:"known_witnesses"`
 	KnownHits   int            `json:"changes_attributed_to_known_findings"`
 	CrashLeftovers int         `json:"tmp_leftovers_of_crashed_scans"`
@@ -209,12 +212,34 @@ func scanChild(tree string, virtual bool) {
 	_, _, _ = filesystem.Run(ctx, &filesystem.Config{Extractors: use, ScanRoots: []*scalibrfs.ScanRoot{root}, Stats: stats.NoopCollector{}})
 }
 
+// scanExtractors returns every built-in extractor that can run offline, whatever operating system
+// it declares (an image of another OS can be scanned on this host: dotnetpe declares Windows), and
+// the subset that does not need direct file-system access (usable on a virtual root).
 func scanExtractors() ([]filesystem.Extractor, []filesystem.Extractor) {
-	exs := fslist.FromCapabilities(&plugin.Capabilities{OS: plugin.OSLinux, Network: plugin.NetworkOffline, DirectFS: true, RunningSystem: false})
-	sort.Slice(exs, func(i, j int) bool { return exs[i].Name() < exs[j].Name() })
-	// a virtual root offers no direct file-system access: only extractors that do not need it
-	exsVirtual := fslist.FilterByCapabilities(exs, &plugin.Capabilities{OS: plugin.OSLinux, Network: plugin.NetworkOffline, DirectFS: false, RunningSystem: false})
-	return exs, exsVirtual
+	var all, virt []filesystem.Extractor
+	seen := map[string]bool{}
+	for _, initers := range fslist.All {
+		for _, initer := range initers {
+			ex := initer()
+			if seen[ex.Name()] {
+				continue
+			}
+			seen[ex.Name()] = true
+			os_ := ex.Requirements().OS
+			if os_ == plugin.OSAny || os_ == plugin.OSUnix {
+				os_ = plugin.OSLinux
+			}
+			if plugin.ValidateRequirements(ex, &plugin.Capabilities{OS: os_, Network: plugin.NetworkOffline, DirectFS: true, RunningSystem: false}) == nil {
+				all = append(all, ex)
+				if plugin.ValidateRequirements(ex, &plugin.Capabilities{OS: os_, Network: plugin.NetworkOffline, DirectFS: false, RunningSystem: false}) == nil {
+					virt = append(virt, ex)
+				}
+			}
+		}
+	}
+	sort.Slice(all, func(i, j int) bool { return all[i].Name() < all[j].Name() })
+	sort.Slice(virt, func(i, j int) bool { return virt[i].Name() < virt[j].Name() })
+	return all, virt
 }
 
 // runScanChild re-executes this binary for one scan; returns "" or a description of the crash.
@@ -275,6 +300,8 @@ func scanMain(sandbox, repo, outPath string, seed int64, rounds int) {
 				must(os.MkdirAll(d, 0o755))
 			}
 			must(os.WriteFile(filepath.Join(cwd, "witness"), []byte("w"), 0o644))
+			must(os.MkdirAll(filepath.Join(cwd, "file"), 0o755)) // bait: a cleanup that removes "file" relative to cwd
+			must(os.WriteFile(filepath.Join(cwd, "file", "keep"), []byte("k"), 0o644))
 			nfiles := 0
 			for _, p := range paths {
 				ws := wants[p]
@@ -337,30 +364,253 @@ func scanMain(sandbox, repo, outPath string, seed int64, rounds int) {
 				}
 				d = keep
 			}
+			d = attributeKnown(d, virtual, &res)
 			if len(d) > 0 {
 				res.Bad = append(res.Bad, map[string]any{"half": "scan", "round": round, "virtual_root": virtual, "seed": seed, "changes": d})
 			}
 			must(os.RemoveAll(base))
 		}
 	}
-	// regression witness of the fixed finding scan-containerd-empty-metadb-initialised (d0c0ef80):
-	// a tree holding only an empty meta.db must come out of the scan unchanged
-	{
-		base := filepath.Join(sandbox, "witness")
-		tree := filepath.Join(base, "tree")
-		full := filepath.Join(tree, containerdDBs[0])
-		must(os.MkdirAll(filepath.Dir(full), 0o755))
-		must(os.WriteFile(full, nil, 0o644))
-		must(os.MkdirAll(filepath.Join(base, "tmp"), 0o755))
-		must(os.MkdirAll(filepath.Join(base, "cwd"), 0o755))
-		before := snapTree(base)
-		_ = runScanChild(tree, filepath.Join(base, "cwd"), filepath.Join(base, "tmp"), false)
-		after := snapTree(base)
-		d := diffTree(before, after)
-		res.Known = map[string]any{"scan-containerd-empty-metadb-initialised": map[string]any{"still_fails": len(d) > 0, "changes": d}}
-		must(os.RemoveAll(base))
-	}
+	runMatrix(sandbox, repo, rounds > 2, &res)
 	b, _ := json.MarshalIndent(res, "", " ")
 	must(os.WriteFile(outPath, b, 0o644))
 	fmt.Printf("scan runs=%d files=%d extractors=%d bad=%d\n", res.Runs, res.Files, res.Extractors, len(res.Bad))
+}
+
+// ------------------------------------------------------------------ known scan-half findings
+const (
+	kDotnetpe = "scan-dotnetpe-temp-cleanup"
+	kRpmWal   = "scan-rpm-sqlite-wal-created"
+)
+
+// attributeKnown removes the changes that are explained by a recorded finding and counts them.
+func attributeKnown(d []string, virtual bool, res *scanResult) []string {
+	var rest []string
+	cwdFileRemoved := false
+	for _, ch := range d {
+		if ch == "removed: cwd/file" {
+			cwdFileRemoved = true
+		}
+	}
+	rpmDirs := []string{"tree/var/lib/rpm", "tree/usr/lib/sysimage/rpm", "tree/usr/share/rpm"}
+	for _, ch := range d {
+		known := false
+		if virtual {
+			// scan-dotnetpe-temp-cleanup: os.RemoveAll(filepath.Base(tmp copy)) = RemoveAll("file") in the cwd
+			known = strings.HasPrefix(ch, "created: tmp/scalibr-tmp") || strings.HasPrefix(ch, "removed: cwd/file") ||
+				(cwdFileRemoved && strings.HasPrefix(ch, "modified: cwd ("))
+		} else {
+			// scan-rpm-sqlite-wal-created: rpmdb.sqlite is opened read-write; -wal/-shm appear next to it
+			for _, rd := range rpmDirs {
+				known = known || strings.HasPrefix(ch, "modified: "+rd+" (") ||
+					(strings.HasPrefix(ch, "created: "+rd+"/") && (strings.HasSuffix(ch, "-wal") || strings.HasSuffix(ch, "-shm")))
+			}
+		}
+		if known {
+			res.KnownHits++
+		} else {
+			rest = append(rest, ch)
+		}
+	}
+	return rest
+}
+
+// ------------------------------------------------------------------ DB / GetRealPath matrix
+type matrixRun struct {
+	Path    string   `json:"path"`
+	Variant string   `json:"variant"`
+	Virtual bool     `json:"virtual_root"`
+	Changes []string `json:"changes,omitempty"`
+	Crashed string   `json:"crashed,omitempty"`
+}
+
+func syntheticSqlite(path string, wal bool) {
+	db, err := sql.Open("sqlite3", path)
+	must(err)
+	if wal {
+		_, err = db.Exec("PRAGMA journal_mode=WAL")
+		must(err)
+	}
+	_, err = db.Exec("CREATE TABLE Packages (hnum INTEGER PRIMARY KEY AUTOINCREMENT, blob BLOB NOT NULL)")
+	must(err)
+	_, err = db.Exec("INSERT INTO Packages(blob) VALUES (?)", append([]byte{0x8e, 0xad, 0xe8, 0x01}, make([]byte, 60)...))
+	must(err)
+	must(db.Close())
+}
+
+type fixture struct {
+	path, variant string
+	write         func(full string) bool // false: no such fixture available
+}
+
+func fileFixture(path, variant string, content func() []byte) fixture {
+	return fixture{path, variant, func(full string) bool {
+		c := content()
+		if c == nil {
+			return false
+		}
+		must(os.WriteFile(full, c, 0o644))
+		return true
+	}}
+}
+
+func runMatrix(sandbox, repo string, full bool, res *scanResult) {
+	read := func(rel string) func() []byte {
+		return func() []byte {
+			b, err := os.ReadFile(filepath.Join(repo, rel))
+			if err != nil || len(b) == 0 {
+				return nil // missing or emptied in this sandbox
+			}
+			return b
+		}
+	}
+	mut := func(src func() []byte, kind string) func() []byte {
+		return func() []byte {
+			b := src()
+			if b == nil {
+				return nil
+			}
+			r := rand.New(rand.NewSource(int64(len(b))))
+			switch kind {
+			case "truncated":
+				return b[:len(b)/2]
+			case "corrupt":
+				c := append([]byte(nil), b...)
+				for k := 0; k < 1+len(c)/50; k++ {
+					c[2+r.Intn(len(c)-2)] = byte(r.Intn(256)) // keep the first two bytes (magic "MZ")
+				}
+				return c
+			}
+			return b
+		}
+	}
+	empty := func() []byte { return []byte{} }
+	random := func() []byte { b := make([]byte, 8192); rand.New(rand.NewSource(7)).Read(b); return b }
+	sq := func(wal bool) func(string) bool { return func(full string) bool { syntheticSqlite(full, wal); return true } }
+	sqMut := func(kind string) func(string) bool {
+		return func(full string) bool {
+			syntheticSqlite(full, false)
+			b, _ := os.ReadFile(full)
+			must(os.WriteFile(full, mut(func() []byte { return b }, kind)(), 0o644))
+			return true
+		}
+	}
+	const rpmT = "extractor/filesystem/os/rpm/testdata/"
+	const ctdT = "extractor/filesystem/containers/containerd/testdata/"
+	const peT = "extractor/filesystem/language/dotnet/dotnetpe/testdata/"
+	emptyFix := func(p string) fixture { return fixture{p, "empty", func(full string) bool { must(os.WriteFile(full, nil, 0o644)); return true }} }
+	_ = empty
+	var fx []fixture
+	for _, p := range []string{"var/lib/rpm/rpmdb.sqlite", "usr/lib/sysimage/rpm/rpmdb.sqlite"} {
+		fx = append(fx, fileFixture(p, "valid-testdata", read(rpmT+"rpmdb.sqlite")), fixture{p, "synthetic-sqlite", sq(false)},
+			fixture{p, "synthetic-sqlite-wal", sq(true)}, emptyFix(p), fixture{p, "truncated", sqMut("truncated")}, fixture{p, "corrupt", sqMut("corrupt")})
+	}
+	fx = append(fx, fileFixture("var/lib/rpm/Packages", "valid-testdata", read(rpmT+"Packages")),
+		fileFixture("var/lib/rpm/Packages", "valid-testdata-epoch", read(rpmT+"Packages_epoch")), emptyFix("var/lib/rpm/Packages"),
+		fileFixture("var/lib/rpm/Packages", "truncated", mut(read(rpmT+"Packages_epoch"), "truncated")),
+		fileFixture("var/lib/rpm/Packages", "corrupt", mut(read(rpmT+"Packages_epoch"), "corrupt")),
+		fileFixture("var/lib/rpm/Packages.db", "valid-testdata", read(rpmT+"Packages.db")), emptyFix("var/lib/rpm/Packages.db"),
+		fileFixture("var/lib/rpm/Packages.db", "random-bytes", random))
+	ctd := "var/lib/containerd/io.containerd.metadata.v1.bolt/meta.db"
+	fx = append(fx, fileFixture(ctd, "valid-testdata", read(ctdT+"meta_linux_test_single.db")),
+		fileFixture(ctd, "valid-testdata-long-lived", read(ctdT+"meta_linux_test_long_lived.db")), emptyFix(ctd),
+		fileFixture(ctd, "truncated", mut(read(ctdT+"meta_linux_test_single.db"), "truncated")),
+		fileFixture(ctd, "corrupt", mut(read(ctdT+"meta_linux_test_single.db"), "corrupt")))
+	snap := "var/lib/containerd/io.containerd.snapshotter.v1.overlayfs/metadata.db"
+	fx = append(fx, fileFixture(snap, "valid-testdata", read(ctdT+"metadata_linux_test.db")), emptyFix(snap))
+	for _, p := range []string{"app/HelloWorldApp.dll", "app/HelloWorldApp.exe"} {
+		src := read(peT + filepath.Base(p))
+		fx = append(fx, fileFixture(p, "valid-testdata", src), emptyFix(p), fileFixture(p, "truncated", mut(src, "truncated")),
+			fileFixture(p, "corrupt", mut(src, "corrupt")))
+	}
+	fx = append(fx, fileFixture("app/Invalid.dll", "invalid-testdata", read(peT+"Invalid.dll")))
+
+	res.Known = map[string]any{}
+	still := map[string][]string{}
+	n := 0
+	for _, f := range fx {
+		if !full && !(strings.HasPrefix(f.variant, "valid") || strings.HasPrefix(f.variant, "synthetic") || f.variant == "empty") {
+			continue
+		}
+		for _, virtual := range []bool{false, true} {
+			base := filepath.Join(sandbox, fmt.Sprintf("m%03d-%v", n, virtual))
+			tree, cwd, tmp := filepath.Join(base, "tree"), filepath.Join(base, "cwd"), filepath.Join(base, "tmp")
+			fullp := filepath.Join(tree, f.path)
+			must(os.MkdirAll(filepath.Dir(fullp), 0o755))
+			if !f.write(fullp) {
+				if !virtual {
+					res.NotExercised = append(res.NotExercised, f.path+" ["+f.variant+"]")
+				}
+				must(os.RemoveAll(base))
+				continue
+			}
+			if strings.HasSuffix(f.path, "meta.db") && strings.HasPrefix(f.variant, "valid") {
+				// the extractor also opens the snapshotter database next to it
+				sp := filepath.Join(tree, snap)
+				must(os.MkdirAll(filepath.Dir(sp), 0o755))
+				if b := read(ctdT + "metadata_linux_test.db")(); b != nil {
+					must(os.WriteFile(sp, b, 0o644))
+				}
+			}
+			must(os.MkdirAll(filepath.Join(tree, "etc"), 0o755))
+			must(os.WriteFile(filepath.Join(tree, "etc", "os-release"), []byte("NAME=Fedora\nID=fedora\nVERSION_ID=40\n"), 0o644))
+			must(os.MkdirAll(filepath.Join(cwd, "file"), 0o755))
+			must(os.WriteFile(filepath.Join(cwd, "file", "keep"), []byte("k"), 0o644))
+			must(os.MkdirAll(tmp, 0o755))
+			before := snapTree(base)
+			crashed := runScanChild(tree, cwd, tmp, virtual)
+			after := snapTree(base)
+			d := diffTree(before, after)
+			run := matrixRun{Path: f.path, Variant: f.variant, Virtual: virtual, Crashed: crashed}
+			if crashed != "" {
+				res.Panics = append(res.Panics, fmt.Sprintf("matrix %s [%s] virtual=%v: scan process died: %s", f.path, f.variant, virtual, crashed))
+				var keep []string
+				for _, ch := range d {
+					if strings.Contains(ch, ": tmp/") {
+						res.CrashLeftovers++
+					} else {
+						keep = append(keep, ch)
+					}
+				}
+				d = keep
+			}
+			run.Changes = d
+			res.Matrix = append(res.Matrix, run)
+			res.Runs++
+			// witnesses of the recorded findings are the matrix entries themselves
+			if virtual && f.variant == "valid-testdata" && strings.HasSuffix(f.path, "HelloWorldApp.dll") {
+				still[kDotnetpe] = d
+			}
+			if !virtual && f.variant == "synthetic-sqlite-wal" && f.path == "var/lib/rpm/rpmdb.sqlite" {
+				still[kRpmWal] = d
+			}
+			if !virtual && f.variant == "empty" && f.path == ctd {
+				still["scan-containerd-empty-metadb-initialised"] = d
+			}
+			if rest := attributeKnown(d, virtual, res); len(rest) > 0 {
+				res.Bad = append(res.Bad, map[string]any{"half": "scan", "matrix": run, "changes": rest})
+			}
+			must(os.RemoveAll(base))
+		}
+		n++
+	}
+	for id, d := range still {
+		hit := false
+		for _, ch := range d {
+			switch id {
+			case kDotnetpe:
+				hit = hit || strings.HasPrefix(ch, "created: tmp/scalibr-tmp") || strings.HasPrefix(ch, "removed: cwd/file")
+			case kRpmWal:
+				hit = hit || strings.HasSuffix(ch, ".sqlite-wal") || strings.HasSuffix(ch, ".sqlite-shm") || strings.HasPrefix(ch, "modified: tree/var/lib/rpm (")
+			default:
+				hit = hit || strings.HasPrefix(ch, "modified: tree/")
+			}
+		}
+		res.Known[id] = map[string]any{"still_fails": hit, "changes": d}
+	}
+	for _, id := range []string{kDotnetpe, kRpmWal, "scan-containerd-empty-metadb-initialised"} {
+		if _, ok := res.Known[id]; !ok {
+			res.Known[id] = map[string]any{"still_fails": false, "changes": []string{"witness fixture unavailable"}, "unavailable": true}
+		}
+	}
 }
